@@ -62,10 +62,13 @@ def extract_location(description):
     return None
 
 
-def parse_amex(filepath, rules):
+def parse_amex(filepath, rules, transforms=None, data_sources=None):
     """Parse AMEX CSV file and return list of transactions.
 
     DEPRECATED: Use format strings instead. This parser will be removed in a future release.
+
+    transforms / data_sources: the rules file's field transforms and the supplemental sources,
+    as for parse_generic_csv (the rules are the same whatever the parser).
     """
     transactions = []
 
@@ -80,7 +83,7 @@ def parse_amex(filepath, rules):
                 date = datetime.strptime(row['Date'], '%m/%d/%Y')
                 merchant, category, subcategory, match_info = normalize_merchant(
                     row['Description'], rules, amount=amount, txn_date=date.date(),
-                    data_source='AMEX',
+                    data_source='AMEX', transforms=transforms, data_sources=data_sources,
                 )
                 location = extract_location(row['Description'])
 
@@ -103,10 +106,12 @@ def parse_amex(filepath, rules):
     return transactions
 
 
-def parse_boa(filepath, rules):
+def parse_boa(filepath, rules, transforms=None, data_sources=None):
     """Parse BOA statement file and return list of transactions.
 
     DEPRECATED: Use format strings instead. This parser will be removed in a future release.
+
+    transforms / data_sources: as for parse_amex.
     """
     transactions = []
 
@@ -130,7 +135,7 @@ def parse_boa(filepath, rules):
 
                 merchant, category, subcategory, match_info = normalize_merchant(
                     description, rules, amount=amount, txn_date=date.date(),
-                    data_source='BOA',
+                    data_source='BOA', transforms=transforms, data_sources=data_sources,
                 )
                 location = extract_location(description)
 
